@@ -1,12 +1,145 @@
 /-
-C03 — data accessors in requested units agree with permanent conversion (placeholder; theorems follow).
+C03 — data accessors in requested units agree with permanent conversion.
 -/
 import PgVerif.Model.Access
+import PgVerif.Props.C01
 import Mathlib.Tactic
 
+set_option linter.unusedSectionVars false
+set_option linter.unusedSimpArgs false
+set_option linter.unusedVariables false
+
 namespace PgVerif.C03
-open PgVerif.Model
+open PgVerif.Model PgVerif.Gen
+
+/-! ## A. Linearity of the unit functions -/
+
+section Linear
+variable {α : Type} [Field α]
+
+lemma map_ok {β γ : Type} (f : β → γ) (x : β) : Except.map f (.ok x : Except Err β) = .ok (f x) := rfl
+lemma map_error {β γ : Type} (f : β → γ) (e : Err) : Except.map f (.error e : Except Err β) = .error e := rfl
+
+/-- `x >>= F v` is linear in `v` when `x` does not depend on `v` and every `F · b` is linear -/
+lemma bind_linear {β : Type} (x : Except Err β) (F : α → β → Except Err α) (v : α)
+    (h : ∀ b, F v b = (F 1 b).map (fun f => v * f)) :
+    (x >>= F v) = (x >>= F 1).map (fun f => v * f) := by
+  cases x with
+  | error e => rfl
+  | ok b => exact h b
+
+lemma cUnit_linear (t : List (String × Nat × Nat)) (v : α) (uf ut : Option String) (sign : Int) :
+    cUnit t v uf ut sign = (cUnit t 1 uf ut sign).map (fun f => v * f) := by
+  unfold cUnit
+  cases (checkUnit t ut : Except Err α) <;> cases (checkUnit t uf : Except Err α) <;>
+    simp [bind, Except.bind, Except.map, pure, Except.pure]
+
+theorem cPressure_linear (psat : Option α) (t : Bool) (v : α) (mf mt uf ut : Option String) :
+    cPressure psat t v mf mt uf ut = (cPressure psat t 1 mf mt uf ut).map (fun f => v * f) := by
+  unfold cPressure
+  cases checkBasis pressureMode mf with
+  | error e => rfl
+  | ok a =>
+  cases checkBasis pressureMode mt with
+  | error e => rfl
+  | ok b =>
+  obtain ⟨a, _⟩ := a
+  obtain ⟨b, _⟩ := b
+  simp only [bind, Except.bind, pure, Except.pure]
+  split_ifs <;> try (first | rfl | exact cUnit_linear ..)
+  all_goals (
+    cases (checkUnit pressureUnits ut : Except Err α) <;> cases (checkUnit pressureUnits uf : Except Err α) <;>
+      cases psat <;> simp only [Except.map, one_mul] <;> (try split) <;> simp_all)
+
+theorem cMaterial_linear (env : Env α) (v : α) (bf bt uf ut : Option String) :
+    cMaterial env v bf bt uf ut = (cMaterial env 1 bf bt uf ut).map (fun f => v * f) := by
+  unfold cMaterial
+  cases checkBasis materialMode bf with
+  | error e => rfl
+  | ok a =>
+  cases checkBasis materialMode bt with
+  | error e => rfl
+  | ok b =>
+  obtain ⟨a, ta⟩ := a
+  obtain ⟨b, tb⟩ := b
+  simp only [bind, Except.bind, pure, Except.pure]
+  split_ifs <;> try (first | rfl | exact cUnit_linear ..)
+  all_goals (
+    cases (checkUnit (unitTable (tb.getD "")) ut : Except Err α) <;>
+    cases (checkUnit (unitTable (ta.getD "")) uf : Except Err α) <;>
+    cases leaf materialConst env (some a) (some b) <;>
+    simp [Except.map] <;> ring)
+
+theorem cLoading_linear (env : Env α) (v : α) (bf bt uf ut bm um : Option String) :
+    cLoading env v bf bt uf ut bm um = (cLoading env 1 bf bt uf ut bm um).map (fun f => v * f) := by
+  unfold cLoading
+  cases checkBasis loadingMode bf with
+  | error e => rfl
+  | ok a =>
+  cases checkBasis loadingMode bt with
+  | error e => rfl
+  | ok b =>
+  obtain ⟨a, ta⟩ := a
+  obtain ⟨b, tb⟩ := b
+  by_cases hab : a = b
+  · subst hab
+    simp only [bind, Except.bind, pure, Except.pure, ne_eq, not_true_eq_false, if_false]
+    split_ifs
+    · cases ta with
+      | none => rfl
+      | some t => exact cUnit_linear ..
+    · simp [Except.map]
+  · cases ta <;> cases tb <;>
+      simp only [bind, Except.bind, pure, Except.pure, ne_eq, hab, not_false_eq_true, if_true]
+    all_goals (
+      repeat' (first | rfl | split)
+      all_goals (simp_all [Except.map])
+      all_goals (try ring))
+
+end Linear
+
+/-! ## C. Branch and limit selection -/
+
+section Select
 variable {α : Type} [Field α] [LinearOrder α]
+
+lemma ads_not_all : ("ads".startsWith "all") = false := by decide +kernel
+lemma des_not_all : ("des".startsWith "all") = false := by decide +kernel
+
+/-- adsorption branch: exactly the stored rows marked 0, in stored order -/
+theorem dataBranch_ads {β : Type} (rows : List (β × Nat)) :
+    dataBranch rows (some "ads") = .ok ((rows.filter (·.2 = 0)).map (·.1)) := by
+  simp [dataBranch, ads_not_all]
+
+/-- desorption branch: exactly the stored rows marked 1, in stored order -/
+theorem dataBranch_des {β : Type} (rows : List (β × Nat)) :
+    dataBranch rows (some "des") = .ok ((rows.filter (·.2 = 1)).map (·.1)) := by
+  simp [dataBranch, des_not_all]
+
+/-- no branch argument, or any string that starts with "all": every stored row, in stored order -/
+theorem dataBranch_all {β : Type} (rows : List (β × Nat)) (branch : Option String)
+    (h : branch = none ∨ ∃ b, branch = some b ∧ b.startsWith "all" = true) :
+    dataBranch rows branch = .ok (rows.map (·.1)) := by
+  rcases h with rfl | ⟨b, rfl, hb⟩
+  · rfl
+  · simp [dataBranch, hb]
+
+/-- any other string is refused with a parameter error -/
+theorem dataBranch_bad {β : Type} (rows : List (β × Nat)) (b : String)
+    (h1 : b.startsWith "all" = false) (h2 : b ≠ "ads") (h3 : b ≠ "des") :
+    dataBranch rows (some b) = .error .param := by
+  simp [dataBranch, h1, h2, h3]
+
+/-- whatever is returned is a sublist of the stored rows (never reordered, never invented) -/
+theorem dataBranch_sublist {β : Type} (rows : List (β × Nat)) (branch : Option String) (out : List β)
+    (h : dataBranch rows branch = .ok out) : out.Sublist (rows.map (·.1)) := by
+  unfold dataBranch at h
+  split at h
+  · cases h; exact List.Sublist.refl _
+  · split_ifs at h <;> cases h
+    · exact List.Sublist.refl _
+    · exact List.filter_sublist.map _
+    · exact List.filter_sublist.map _
 
 /-- limits never add or reorder points: the result is a sublist of the branch data -/
 theorem applyLimits_sublist (vs : List α) (l : Option (Option α × Option α)) : (applyLimits vs l).Sublist vs := by
@@ -19,5 +152,1053 @@ theorem applyLimits_sublist (vs : List α) (l : Option (Option α × Option α))
     split_ifs
     · exact List.Sublist.refl _
     · exact List.filter_sublist
+
+theorem applyLimits_none (vs : List α) : applyLimits vs none = vs := rfl
+
+/-- the Python test `limits and any(limits)`: at least one bound is given and non-zero -/
+def limitsActive (lo hi : Option α) : Prop := (∃ a, lo = some a ∧ a ≠ 0) ∨ (∃ b, hi = some b ∧ b ≠ 0)
+
+/-- limits `(None, None)`, `(0, 0)`, `(None, 0)`, `(0, None)` select everything -/
+theorem applyLimits_inactive (vs : List α) (lo hi : Option α) (h : ¬ limitsActive lo hi) :
+    applyLimits vs (some (lo, hi)) = vs := by
+  unfold limitsActive at h
+  simp only [not_or, not_exists, not_and, not_not] at h
+  unfold applyLimits
+  cases lo <;> cases hi <;> simp_all
+
+/-- membership: a stored point is kept iff it lies inside the (inclusive) bounds that were given,
+and only when the limits are active -/
+theorem applyLimits_spec (vs : List α) (lo hi : Option α) (x : α) :
+    x ∈ applyLimits vs (some (lo, hi)) ↔
+      x ∈ vs ∧ (limitsActive lo hi → (∀ a, lo = some a → a ≤ x) ∧ (∀ b, hi = some b → x ≤ b)) := by
+  unfold limitsActive applyLimits
+  cases lo <;> cases hi <;> simp only [] <;> split_ifs <;> simp_all <;> tauto
+
+/-- desorption data are returned in reverse stored order, everything else unchanged -/
+theorem orderedForBranch_des {β : Type} (xs : List β) : orderedForBranch "des" xs = xs.reverse := by
+  simp [orderedForBranch]
+
+theorem orderedForBranch_other {β : Type} (branch : String) (h : branch ≠ "des") (xs : List β) :
+    orderedForBranch branch xs = xs := by
+  simp [orderedForBranch, h]
+
+end Select
+
+/-! ## D. Branch guessing: a function of the pressure sequence only, split at the first maximum
+
+`splitAds : List α → List Nat` takes the pressures and nothing else, so by its type the marks cannot depend on
+row labels, index dtypes or any other column (the Python reads the pressure column positionally). -/
+
+section Split
+variable {α : Type} [Field α] [LinearOrder α]
+
+theorem splitAds_length (ps : List α) : (splitAds ps).length = ps.length := by
+  unfold splitAds
+  simp only []
+  split_ifs <;> simp
+
+/-- `firstMaxIdx` is the position of the first maximum: in range, its element dominates every element and strictly
+dominates every earlier one -/
+theorem firstMaxIdx_spec (ps : List α) (hne : ps ≠ []) :
+    ∃ hm : firstMaxIdx ps < ps.length,
+      (∀ j (hj : j < ps.length), ps[j] ≤ ps[firstMaxIdx ps]) ∧
+      (∀ j (hj : j < firstMaxIdx ps), ps[j]'(hj.trans hm) < ps[firstMaxIdx ps]) := by
+  induction ps with
+  | nil => exact absurd rfl hne
+  | cons x t ih =>
+    cases t with
+    | nil =>
+      refine ⟨by simp [firstMaxIdx], ?_, ?_⟩
+      · intro j hj
+        simp only [List.length_singleton, Nat.lt_one_iff] at hj
+        subst hj; simp [firstMaxIdx]
+      · intro j hj; simp [firstMaxIdx] at hj
+    | cons y t =>
+      obtain ⟨hm, hmax, hfirst⟩ := ih (by simp)
+      have hget : (y :: t).getD (firstMaxIdx (y :: t)) y = (y :: t)[firstMaxIdx (y :: t)] := by
+        rw [List.getD_eq_getElem?_getD, List.getElem?_eq_getElem hm, Option.getD_some]
+      by_cases hle : (y :: t)[firstMaxIdx (y :: t)] ≤ x
+      · have h0 : firstMaxIdx (x :: y :: t) = 0 := by
+          simp only [firstMaxIdx, hget, hle, if_true]
+        refine ⟨by rw [h0]; simp, ?_, ?_⟩
+        · intro j hj
+          simp only [h0, List.getElem_cons_zero]
+          cases j with
+          | zero => simp
+          | succ j =>
+            simp only [List.getElem_cons_succ]
+            exact (hmax j (by simpa using hj)).trans hle
+        · intro j hj; rw [h0] at hj; exact absurd hj (Nat.not_lt_zero _)
+      · have h1 : firstMaxIdx (x :: y :: t) = firstMaxIdx (y :: t) + 1 := by
+          simp only [firstMaxIdx, hget, hle, if_false]
+        have hlt : x < (y :: t)[firstMaxIdx (y :: t)] := lt_of_not_ge hle
+        refine ⟨by rw [h1]; simpa using hm, ?_, ?_⟩
+        · intro j hj
+          simp only [h1, List.getElem_cons_succ]
+          cases j with
+          | zero => simpa using hlt.le
+          | succ j =>
+            simp only [List.getElem_cons_succ]
+            exact hmax j (by simpa using hj)
+        · intro j hj
+          simp only [h1, List.getElem_cons_succ]
+          cases j with
+          | zero => simpa using hlt
+          | succ j =>
+            simp only [List.getElem_cons_succ]
+            exact hfirst j (by rw [h1] at hj; omega)
+
+/-- the marks: with `m` the position of the first pressure maximum —
+* the maximum is the last point: everything is adsorption (0);
+* the maximum is the first point (and there is more than one point): everything is desorption (1);
+* otherwise points up to and including the maximum are adsorption, the rest desorption. -/
+theorem splitAds_spec (ps : List α) :
+    (firstMaxIdx ps + 1 = ps.length → splitAds ps = List.replicate ps.length 0) ∧
+    (firstMaxIdx ps = 0 → ps.length ≠ 1 → splitAds ps = List.replicate ps.length 1) ∧
+    (firstMaxIdx ps + 1 ≠ ps.length → firstMaxIdx ps ≠ 0 →
+      ∀ i (hi : i < ps.length),
+        (splitAds ps)[i]'(by rw [splitAds_length]; exact hi) = if i ≤ firstMaxIdx ps then 0 else 1) := by
+  refine ⟨?_, ?_, ?_⟩
+  · intro h; simp [splitAds, h]
+  · intro h0 h1
+    have : ¬ (1 = ps.length) := fun h => h1 h.symm
+    simp [splitAds, h0, this]
+  · intro h1 h0 i hi
+    simp only [splitAds, h1, if_false, Nat.add_eq_right, h0, List.getElem_map, List.getElem_range]
+    by_cases h : i ≤ firstMaxIdx ps
+    · rw [if_pos h, if_neg (by omega)]
+    · rw [if_neg h, if_pos (by omega)]
+
+/-! non-vacuity of D on concrete sequences -/
+example : splitAds ([1, 2, 3, 2, 1] : List ℚ) = [0, 0, 0, 1, 1] := by decide +kernel
+example : splitAds ([5, 4, 3] : List ℚ) = [1, 1, 1] := by decide +kernel
+example : splitAds ([1, 2, 3] : List ℚ) = [0, 0, 0] := by decide +kernel
+/-- a repeated maximum splits at its FIRST occurrence -/
+example : splitAds ([1, 3, 3, 1] : List ℚ) = [0, 0, 1, 1] := by decide +kernel
+example : firstMaxIdx ([1, 2, 3, 2, 1] : List ℚ) = 2 := by decide +kernel
+
+end Split
+
+/-! ## E. Interpolation laws (`interpLin`, strictly increasing knots) -/
+
+section Interp
+variable {α : Type} [Field α] [LinearOrder α]
+
+/-- at a measured pressure the interpolated value is the measured loading -/
+theorem interpLin_at_knot (ps ls : List α) (hs : ps.Pairwise (· < ·)) (hl : ps.length = ls.length)
+    (i : Nat) (hi : i < ps.length) : interpLin ps ls ps[i] = some (ls[i]'(hl ▸ hi)) := by
+  induction ps generalizing ls i with
+  | nil => simp at hi
+  | cons p0 pt ih =>
+    cases ls with
+    | nil => simp at hl
+    | cons l0 lt =>
+      cases pt with
+      | nil =>
+        cases lt with
+        | nil =>
+          have : i = 0 := by simpa using hi
+          subst this; simp [interpLin]
+        | cons _ _ => simp at hl
+      | cons p1 pt =>
+        cases lt with
+        | nil => simp at hl
+        | cons l1 lt =>
+          have h01 : p0 < p1 := by
+            have := (List.pairwise_cons.mp hs).1 p1 (by simp); exact this
+          have hs' : (p1 :: pt).Pairwise (· < ·) := (List.pairwise_cons.mp hs).2
+          have hne : p1 - p0 ≠ 0 := sub_ne_zero.mpr h01.ne'
+          cases i with
+          | zero =>
+            simp only [List.getElem_cons_zero, interpLin, lt_irrefl, if_false, h01.le, if_true, sub_self,
+              mul_zero, add_zero]
+          | succ i =>
+            simp only [List.getElem_cons_succ]
+            have hi' : i < (p1 :: pt).length := by simpa using hi
+            have hgt : p0 < (p1 :: pt)[i] := (List.pairwise_cons.mp hs).1 _ (List.getElem_mem hi')
+            rw [interpLin, if_neg (not_lt.mpr hgt.le)]
+            by_cases hle : (p1 :: pt)[i] ≤ p1
+            · rw [if_pos hle]
+              have hi0 : i = 0 := by
+                by_contra hne0
+                obtain ⟨k, rfl⟩ := Nat.exists_eq_succ_of_ne_zero hne0
+                have : p1 < (p1 :: pt)[k + 1] := by
+                  simp only [List.getElem_cons_succ]
+                  exact (List.pairwise_cons.mp hs').1 _ (List.getElem_mem _)
+                exact absurd hle (not_le.mpr this)
+              subst hi0
+              simp only [List.getElem_cons_zero]
+              congr 1
+              field_simp
+              ring
+            · rw [if_neg hle]
+              exact ih (l1 :: lt) hs' (by simpa using hl) i hi'
+
+lemma interpLin_between_strict (ps ls : List α) (hs : ps.Pairwise (· < ·)) (hl : ps.length = ls.length)
+    (i : Nat) (hi : i + 1 < ps.length) (x : α) (h1 : ps[i] < x) (h2 : x ≤ ps[i + 1]) :
+    interpLin ps ls x =
+      some (ls[i]'(by omega) + (ls[i + 1]'(hl ▸ hi) - ls[i]'(by omega)) / (ps[i + 1] - ps[i]) * (x - ps[i])) := by
+  induction ps generalizing ls i with
+  | nil => simp at hi
+  | cons p0 pt ih =>
+    cases pt with
+    | nil => simp at hi
+    | cons p1 pt =>
+      cases ls with
+      | nil => simp at hl
+      | cons l0 lt =>
+        cases lt with
+        | nil => simp at hl
+        | cons l1 lt =>
+          have h01 : p0 < p1 := (List.pairwise_cons.mp hs).1 p1 (by simp)
+          have hs' : (p1 :: pt).Pairwise (· < ·) := (List.pairwise_cons.mp hs).2
+          cases i with
+          | zero =>
+            simp only [List.getElem_cons_zero, List.getElem_cons_succ, zero_add] at h1 h2 ⊢
+            rw [interpLin, if_neg (not_lt.mpr h1.le), if_pos h2]
+          | succ i =>
+            simp only [List.getElem_cons_succ] at h1 h2 ⊢
+            have hi' : i + 1 < (p1 :: pt).length := by simpa using hi
+            have hp1 : p1 ≤ (p1 :: pt)[i] := by
+              cases i with
+              | zero => simp
+              | succ k =>
+                simp only [List.getElem_cons_succ]
+                exact ((List.pairwise_cons.mp hs').1 _ (List.getElem_mem _)).le
+            have hx1 : p1 < x := lt_of_le_of_lt hp1 h1
+            rw [interpLin, if_neg (not_lt.mpr (h01.trans hx1).le), if_neg (not_le.mpr hx1)]
+            exact ih (l1 :: lt) hs' (by simpa using hl) i hi' h1 h2
+
+/-- between two neighbouring measured pressures the value lies on the straight line through the two points -/
+theorem interpLin_between (ps ls : List α) (hs : ps.Pairwise (· < ·)) (hl : ps.length = ls.length)
+    (i : Nat) (hi : i + 1 < ps.length) (x : α) (h1 : ps[i] ≤ x) (h2 : x ≤ ps[i + 1]) :
+    interpLin ps ls x =
+      some (ls[i]'(by omega) + (ls[i + 1]'(hl ▸ hi) - ls[i]'(by omega)) / (ps[i + 1] - ps[i]) * (x - ps[i])) := by
+  rcases eq_or_lt_of_le h1 with h | h
+  · subst h
+    rw [interpLin_at_knot ps ls hs hl i (by omega)]
+    simp
+  · exact interpLin_between_strict ps ls hs hl i hi x h h2
+
+/-- ... and therefore between the two neighbouring loadings (a convex combination) -/
+theorem interpLin_between_bounds [IsStrictOrderedRing α] (ps ls : List α) (hs : ps.Pairwise (· < ·))
+    (hl : ps.length = ls.length) (i : Nat) (hi : i + 1 < ps.length) (x : α) (h1 : ps[i] ≤ x) (h2 : x ≤ ps[i + 1]) :
+    ∃ y, interpLin ps ls x = some y ∧
+      min (ls[i]'(by omega)) (ls[i + 1]'(hl ▸ hi)) ≤ y ∧ y ≤ max (ls[i]'(by omega)) (ls[i + 1]'(hl ▸ hi)) := by
+  refine ⟨_, interpLin_between ps ls hs hl i hi x h1 h2, ?_⟩
+  have hlt : ps[i] < ps[i + 1] := List.pairwise_iff_getElem.mp hs i (i + 1) (by omega) hi (by omega)
+  have hd : 0 < ps[i + 1] - ps[i] := sub_pos.mpr hlt
+  set a := ls[i]'(by omega)
+  set b := ls[i + 1]'(hl ▸ hi)
+  set t := (x - ps[i]) / (ps[i + 1] - ps[i]) with ht
+  have ht0 : 0 ≤ t := div_nonneg (sub_nonneg.mpr h1) hd.le
+  have ht1 : t ≤ 1 := by rw [ht, div_le_one hd]; linarith
+  have e : a + (b - a) / (ps[i + 1] - ps[i]) * (x - ps[i]) = a + (b - a) * t := by
+    rw [ht]; field_simp
+  rw [e]
+  rcases le_total a b with hab | hab
+  · rw [min_eq_left hab, max_eq_right hab]
+    constructor <;> nlinarith
+  · rw [min_eq_right hab, max_eq_left hab]
+    constructor <;> nlinarith
+
+/-- a pressure below the first or above the last measured pressure is refused (no fill rule in the model) -/
+theorem interpLin_outside (ps ls : List α) (hs : ps.Pairwise (· < ·)) (hne : ps ≠ []) (x : α)
+    (h : x < ps.head hne ∨ ps.getLast hne < x) : interpLin ps ls x = none := by
+  induction ps generalizing ls with
+  | nil => exact absurd rfl hne
+  | cons p0 pt ih =>
+    cases pt with
+    | nil =>
+      cases ls with
+      | nil => rfl
+      | cons l0 lt =>
+        cases lt with
+        | nil =>
+          have : x ≠ p0 := by
+            rcases h with h | h
+            · exact ne_of_lt (by simpa using h)
+            · exact ne_of_gt (by simpa using h)
+          simp [interpLin, this]
+        | cons _ _ => rfl
+    | cons p1 pt =>
+      cases ls with
+      | nil => rfl
+      | cons l0 lt =>
+        cases lt with
+        | nil => rfl
+        | cons l1 lt =>
+          have h01 : p0 < p1 := (List.pairwise_cons.mp hs).1 p1 (by simp)
+          have hs' : (p1 :: pt).Pairwise (· < ·) := (List.pairwise_cons.mp hs).2
+          rcases h with h | h
+          · have : x < p0 := by simpa using h
+            rw [interpLin, if_pos this]
+          · have hlast : (p1 :: pt).getLast (by simp) < x := by simpa using h
+            have hp1 : p1 ≤ (p1 :: pt).getLast (by simp) := by
+              rcases List.mem_cons.mp (List.getLast_mem (l := p1 :: pt) (by simp)) with h' | h'
+              · rw [h']
+              · exact ((List.pairwise_cons.mp hs').1 _ h').le
+            have hx1 : p1 < x := lt_of_le_of_lt hp1 hlast
+            rw [interpLin, if_neg (not_lt.mpr (h01.trans hx1).le), if_neg (not_le.mpr hx1)]
+            exact ih (l1 :: lt) hs' (by simp) (Or.inr hlast)
+
+/-! non-vacuity of E -/
+example : interpLin ([1, 2, 4] : List ℚ) [10, 20, 60] 3 = some 40 := by decide +kernel
+example : interpLin ([1, 2, 4] : List ℚ) [10, 20, 60] 2 = some 20 := by decide +kernel
+example : interpLin ([1, 2, 4] : List ℚ) [10, 20, 60] 5 = none := by decide +kernel
+example : interpLin ([1, 2, 4] : List ℚ) [10, 20, 60] (1 / 2) = none := by decide +kernel
+
+end Interp
+
+/-! ## B. Accessor = read ∘ permanent conversion -/
+
+section Access
+open PgVerif.Units
+variable {α : Type} [Field α] [CharZero α]
+
+lemma orDefault_mode (a : Option String) (cur : String) : orDefault a (some cur) = some (orCurrent a cur) := by
+  cases a with
+  | none => rfl
+  | some s => by_cases h : s = "" <;> simp [orDefault, orCurrent, truthy, h]
+
+lemma orDefault_of_truthy {a cur : Option String} (h : truthy a = true) : orDefault a cur = a := by
+  simp [orDefault, h]
+
+lemma orDefault_of_falsy {a cur : Option String} (h : truthy a = false) : orDefault a cur = cur := by
+  simp [orDefault, h]
+
+lemma checkUnit_falsy (t : List (String × Nat × Nat)) (u : Option String) (h : truthy u = false) :
+    (checkUnit t u : Except Err α) = .error .param := by
+  cases u with
+  | none => rfl
+  | some s => simp [truthy] at h; subst h; rfl
+
+lemma checkBasis_ok_fst {modes : List (String × Option String)} {a : String} {x : String × Option String}
+    (h : checkBasis modes (some a) = .ok x) : x.1 = a := by
+  unfold checkBasis at h
+  simp only at h
+  split_ifs at h
+  split at h <;> simp at h
+  rw [← h]
+
+lemma pmode_cases {m : String} (h : (pressureMode.lookup m).isSome) :
+    m = "absolute" ∨ m = "relative" ∨ m = "relative%" := by
+  by_contra hc
+  simp only [not_or] at hc
+  obtain ⟨h1, h2, h3⟩ := hc
+  have b1 : (m == "absolute") = false := by simpa using h1
+  have b2 : (m == "relative") = false := by simpa using h2
+  have b3 : (m == "relative%") = false := by simpa using h3
+  simp [pressureMode, List.lookup_cons, b1, b2, b3] at h
+
+/-- the part of the constructor's label validation (`BaseIsotherm.__init__`) that concerns pressure:
+a supported mode; a supported unit when absolute; no unit when relative (the constructor forces `None`,
+`convertPressure` keeps it so) -/
+structure PLabelsOk (lab : Labels) : Prop where
+  mode : (pressureMode.lookup lab.pmode).isSome = true
+  unit_abs : lab.pmode = "absolute" → ∃ u, lab.punit = some u ∧ (pressureUnits.lookup u).isSome = true
+  unit_rel : lab.pmode ≠ "absolute" → truthy lab.punit = false
+
+lemma lookup_ne_empty {u : String} (h : (pressureUnits.lookup u).isSome = true) : u ≠ "" := by
+  rintro rfl; revert h; decide
+
+/-- converting to the representation the data are already in is the identity -/
+lemma cPressure_same (psat : Option α) (t : Bool) (v : α) (lab : Labels) (h : PLabelsOk lab) :
+    cPressure psat t v (some lab.pmode) (some lab.pmode) lab.punit lab.punit = .ok v := by
+  rcases pmode_cases h.mode with hm | hm | hm
+  · obtain ⟨u, hu, hl⟩ := h.unit_abs hm
+    have hu0 := lookup_ne_empty hl
+    obtain ⟨e, he⟩ := Option.isSome_iff_exists.mp hl
+    have hf : (facOf pressureUnits u : Option α) = some ((e.1 : α) / (e.2 : α)) := by simp [facOf, he]
+    have hn := facOf_ne_zero _ pressure_ok _ _ hf
+    rw [hm, hu]
+    simp [cPressure, checkBasis, pressureMode, List.lookup, bind, Except.bind, pure, Except.pure, truthy, hu0,
+      cUnit_ok pressureUnits v u u _ _ 1 hu0 hu0 hf hf, div_self hn]
+  · rw [hm]
+    simp [cPressure, checkBasis, pressureMode, List.lookup, bind, Except.bind, pure, Except.pure]
+  · rw [hm]
+    simp [cPressure, checkBasis, pressureMode, List.lookup, bind, Except.bind, pure, Except.pure]
+
+/-- the target unit matters only when the target mode is absolute -/
+lemma cPressure_ut_irrel (psat : Option α) (t : Bool) (v : α) (a b : String) (uf ut1 ut2 : Option String)
+    (hab : a ≠ b) (h : b = "absolute" → truthy ut1 = false ∧ truthy ut2 = false) :
+    cPressure psat t v (some a) (some b) uf ut1 = cPressure psat t v (some a) (some b) uf ut2 := by
+  unfold cPressure
+  cases ha : checkBasis pressureMode (some a) with
+  | error e => rfl
+  | ok x =>
+  cases hb : checkBasis pressureMode (some b) with
+  | error e => rfl
+  | ok y =>
+  have hx := checkBasis_ok_fst ha
+  have hy := checkBasis_ok_fst hb
+  obtain ⟨x1, x2⟩ := x
+  obtain ⟨y1, y2⟩ := y
+  simp only at hx hy
+  subst hx; subst hy
+  simp only [bind, Except.bind, pure, Except.pure, ne_eq, hab, not_false_eq_true, if_true]
+  by_cases hb1 : y1 = "absolute"
+  · obtain ⟨h1, h2⟩ := h hb1
+    simp [hb1, checkUnit_falsy _ _ h1, checkUnit_falsy _ _ h2]
+  · by_cases ha1 : x1 = "absolute"
+    · simp [hb1, ha1]
+    · simp [hb1, ha1]
+
+lemma map_mul_one' (l : List α) : l.map (· * (1 : α)) = l := by simp
+
+/-- the single factor both sides are built from: `c_pressure(1, stored → requested)` -/
+def pFactor (c : Ctx α) (lab : Labels) (pm pu : Option String) : Except Err α :=
+  cPressure c.psat c.tempOk (1 : α) (some lab.pmode) (some (orCurrent pm lab.pmode)) lab.punit (orDefault pu lab.punit)
+
+lemma accessPressure_eq_factor (c : Ctx α) (lab : Labels) (v : α) (pm pu : Option String)
+    (harg : truthy pm = true ∨ truthy pu = true) :
+    accessPressure c lab v pm pu =
+      match pFactor c lab pm pu with
+      | .ok f => .ok (v * f)
+      | .error _ => .error .calc := by
+  have : (truthy pm || truthy pu) = true := by simpa using harg
+  unfold accessPressure pFactor
+  rw [if_pos this, orDefault_mode, cPressure_linear]
+  cases cPressure c.psat c.tempOk (1 : α) (some lab.pmode) (some (orCurrent pm lab.pmode)) lab.punit
+    (orDefault pu lab.punit) <;> rfl
+
+/-- `unit_to` after the defaulting rule of the `convert_*` methods -/
+def unitArg (u : Option String) (same : Bool) (cur : Option String) : Option String :=
+  if !truthy u && same then cur else u
+
+lemma unitArg_truthy {u : Option String} (h : truthy u = true) (same : Bool) (cur : Option String) :
+    unitArg u same cur = u := by simp [unitArg, h]
+
+lemma unitArg_falsy_same {u : Option String} (h : truthy u = false) (cur : Option String) :
+    unitArg u true cur = cur := by simp [unitArg, h]
+
+lemma unitArg_diff (u : Option String) (cur : Option String) : unitArg u false cur = u := by simp [unitArg]
+
+def pCore (c : Ctx α) (s : Iso α) (mode' : String) (unit' : Option String) : Iso α × Outcome :=
+  if mode' = s.lab.pmode ∧ unit' = s.lab.punit then (s, .ok)
+  else
+    match cPressure c.psat c.tempOk (1 : α) (some s.lab.pmode) (some mode') s.lab.punit unit' with
+    | .error _ => (s, .err .calc)
+    | .ok f =>
+      let pu := if unit' ≠ s.lab.punit ∧ mode' = "absolute" then unit' else none
+      ({ s with ps := s.ps.map (· * f), lab := { s.lab with pmode := mode', punit := pu }, lcache := false, pcache := false }, .ok)
+
+lemma convertPressure_core (c : Ctx α) (s : Iso α) (m u : Option String) :
+    convertPressure c s m u =
+      pCore c s (orCurrent m s.lab.pmode) (unitArg u (decide (orCurrent m s.lab.pmode = s.lab.pmode)) s.lab.punit) := rfl
+
+lemma pCore_spec (c : Ctx α) (s : Iso α) (mode' : String) (unit' : Option String)
+    (r : Except Err α)
+    (hsame : mode' = s.lab.pmode → unit' = s.lab.punit → r = .ok 1)
+    (hdiff : ¬ (mode' = s.lab.pmode ∧ unit' = s.lab.punit) →
+      r = cPressure c.psat c.tempOk (1 : α) (some s.lab.pmode) (some mode') s.lab.punit unit') :
+    (∀ f, r = .ok f → (pCore c s mode' unit').2 = .ok ∧ (pCore c s mode' unit').1.ps = s.ps.map (· * f)) ∧
+    (∀ e, r = .error e → pCore c s mode' unit' = (s, .err .calc)) := by
+  unfold pCore
+  by_cases h : mode' = s.lab.pmode ∧ unit' = s.lab.punit
+  · rw [if_pos h, hsame h.1 h.2]
+    refine ⟨fun f hf => ?_, fun e he => by cases he⟩
+    cases hf; exact ⟨rfl, (map_mul_one' _).symm⟩
+  · rw [if_neg h, ← hdiff h]
+    refine ⟨fun f hf => ?_, fun e he => ?_⟩
+    · rw [hf]; exact ⟨rfl, rfl⟩
+    · rw [he]
+
+lemma convertPressure_eq_factor (c : Ctx α) (s : Iso α) (pm pu : Option String) (hlab : PLabelsOk s.lab) :
+    (∀ f, pFactor c s.lab pm pu = .ok f →
+      (convertPressure c s pm pu).2 = .ok ∧ (convertPressure c s pm pu).1.ps = s.ps.map (· * f)) ∧
+    (∀ e, pFactor c s.lab pm pu = .error e → convertPressure c s pm pu = (s, .err .calc)) := by
+  rw [convertPressure_core]
+  apply pCore_spec
+  · intro hm hu
+    unfold pFactor
+    rw [hm]
+    have : orDefault pu s.lab.punit = s.lab.punit := by
+      by_cases ht : truthy pu = true
+      · rw [orDefault_of_truthy ht]; rw [unitArg_truthy ht] at hu; exact hu
+      · exact orDefault_of_falsy (by simpa using ht)
+    rw [this]
+    exact cPressure_same _ _ _ _ hlab
+  · intro hne
+    unfold pFactor
+    by_cases ht : truthy pu = true
+    · rw [orDefault_of_truthy ht, unitArg_truthy ht]
+    · have ht' : truthy pu = false := by simpa using ht
+      rw [orDefault_of_falsy ht']
+      by_cases hm : orCurrent pm s.lab.pmode = s.lab.pmode
+      · simp only [hm, decide_true, unitArg_falsy_same ht']
+      · have hdec : decide (orCurrent pm s.lab.pmode = s.lab.pmode) = false := by simpa using hm
+        rw [hdec, unitArg_diff]
+        have hne' : s.lab.pmode ≠ orCurrent pm s.lab.pmode := fun h => hm h.symm
+        apply cPressure_ut_irrel _ _ _ _ _ _ _ _ hne'
+        intro habs
+        exact ⟨hlab.unit_rel (fun h => hne' (h.trans habs.symm)), ht'⟩
+
+/-- **accessor = read ∘ permanent conversion (pressure)**, for ALL argument strings, on a state whose pressure
+labels passed the constructor's validation:
+* if the permanent conversion succeeds, it multiplied the pressure column by one factor `f` (`f = 1` on the
+  early-return path "same representation") and the accessor returns `v * f` for every stored value `v`;
+* if the accessor is refused it is with a `CalculationError`, and the permanent conversion is refused with the same class;
+* conversely a refused permanent conversion means a refused accessor. -/
+theorem accessPressure_eq_convert (c : Ctx α) (s : Iso α) (pm pu : Option String)
+    (harg : truthy pm = true ∨ truthy pu = true) (hlab : PLabelsOk s.lab) :
+    (∀ s', convertPressure c s pm pu = (s', .ok) →
+      ∃ f, s'.ps = s.ps.map (· * f) ∧ ∀ v, accessPressure c s.lab v pm pu = .ok (v * f)) ∧
+    (∀ v e, accessPressure c s.lab v pm pu = .error e →
+      e = .calc ∧ convertPressure c s pm pu = (s, .err .calc)) ∧
+    (∀ s' e, convertPressure c s pm pu = (s', .err e) →
+      e = .calc ∧ s' = s ∧ ∀ v, accessPressure c s.lab v pm pu = .error .calc) := by
+  obtain ⟨hok, herr⟩ := convertPressure_eq_factor c s pm pu hlab
+  cases hr : pFactor c s.lab pm pu with
+  | ok f =>
+    obtain ⟨h2, hps⟩ := hok f hr
+    refine ⟨fun s' hs' => ⟨f, ?_, fun v => ?_⟩, fun v e he => ?_, fun s' e hs' => ?_⟩
+    · rw [hs'] at hps; exact hps
+    · rw [accessPressure_eq_factor c s.lab v pm pu harg, hr]
+    · rw [accessPressure_eq_factor c s.lab v pm pu harg, hr] at he; cases he
+    · rw [hs'] at h2; cases h2
+  | error e0 =>
+    have hc := herr e0 hr
+    refine ⟨fun s' hs' => ?_, fun v e he => ?_, fun s' e hs' => ?_⟩
+    · rw [hc] at hs'; cases hs'
+    · rw [accessPressure_eq_factor c s.lab v pm pu harg, hr] at he
+      cases he; exact ⟨rfl, hc⟩
+    · rw [hc] at hs'; cases hs'
+      exact ⟨rfl, rfl, fun v => by rw [accessPressure_eq_factor c s.lab v pm pu harg, hr]⟩
+
+/-! ### loading -/
+
+def lCore (c : Ctx α) (s : Iso α) (basis' : String) (unit' : Option String) : Iso α × Outcome :=
+  if basis' = s.lab.lbasis ∧ unit' = s.lab.lunit then (s, .ok)
+  else if isFrac s.lab.lbasis && basis' = s.lab.lbasis then (s, .ok)
+  else
+    match cLoading c.env (1 : α) (some s.lab.lbasis) (some basis') s.lab.lunit unit' (some s.lab.mbasis) s.lab.munit with
+    | .error e => (s, .err e)
+    | .ok f =>
+      let lu := if isFrac basis' then none else unit'
+      ({ s with ls := s.ls.map (· * f), lab := { s.lab with lbasis := basis', lunit := lu }, lcache := false, pcache := false }, .ok)
+
+lemma convertLoading_core (c : Ctx α) (s : Iso α) (b u : Option String) :
+    convertLoading c s b u =
+      lCore c s (orCurrent b s.lab.lbasis) (unitArg u (decide (orCurrent b s.lab.lbasis = s.lab.lbasis)) s.lab.lunit) := rfl
+
+/-- material step on a state with a physical loading basis -/
+def mCore (c : Ctx α) (s : Iso α) (basis' : String) (unit' : Option String) : Iso α × Outcome :=
+  if basis' = s.lab.mbasis ∧ unit' = s.lab.munit then (s, .ok)
+  else if isFrac s.lab.lbasis && basis' = s.lab.mbasis then
+    match cMaterial c.env (1 : α) (some s.lab.mbasis) (some basis') s.lab.munit unit' with
+    | .error e => (s, .err e)
+    | .ok _ => ({ s with lab := { s.lab with munit := unit' } }, .ok)
+  else
+    match cMaterial c.env (1 : α) (some s.lab.mbasis) (some basis') s.lab.munit unit' with
+    | .error e => (s, .err e)
+    | .ok f1 =>
+      let r2 : Except Err α :=
+        if isFrac s.lab.lbasis then
+          cLoading c.env (1 : α) (some (volLiq s.lab.mbasis)) (some (volLiq basis')) s.lab.munit unit' none none
+        else .ok 1
+      match r2 with
+      | .error e => (s, .err e)
+      | .ok f2 =>
+        ({ s with ls := s.ls.map (· * f1 * f2), lab := { s.lab with mbasis := basis', munit := unit' },
+                  lcache := false, pcache := false }, .ok)
+
+lemma convertMaterial_core (c : Ctx α) (s : Iso α) (b u : Option String) :
+    convertMaterial c s b u =
+      mCore c s (orCurrent b s.lab.mbasis) (unitArg u (decide (orCurrent b s.lab.mbasis = s.lab.mbasis)) s.lab.munit) := rfl
+
+lemma lCore_spec (c : Ctx α) (s : Iso α) (basis' : String) (unit' : Option String) (r : Except Err α)
+    (hsame : (basis' = s.lab.lbasis ∧ unit' = s.lab.lunit) ∨ (isFrac s.lab.lbasis = true ∧ basis' = s.lab.lbasis) → r = .ok 1)
+    (hdiff : ¬ (basis' = s.lab.lbasis ∧ unit' = s.lab.lunit) → ¬ (isFrac s.lab.lbasis = true ∧ basis' = s.lab.lbasis) →
+      r = cLoading c.env (1 : α) (some s.lab.lbasis) (some basis') s.lab.lunit unit' (some s.lab.mbasis) s.lab.munit) :
+    (∀ f, r = .ok f → (lCore c s basis' unit').2 = .ok ∧ (lCore c s basis' unit').1.ls = s.ls.map (· * f)) ∧
+    (∀ e, r = .error e → lCore c s basis' unit' = (s, .err e)) := by
+  unfold lCore
+  by_cases h : basis' = s.lab.lbasis ∧ unit' = s.lab.lunit
+  · rw [if_pos h, hsame (Or.inl h)]
+    refine ⟨fun f hf => ?_, fun e he => by cases he⟩
+    cases hf; exact ⟨rfl, (map_mul_one' _).symm⟩
+  · rw [if_neg h]
+    by_cases h2 : isFrac s.lab.lbasis = true ∧ basis' = s.lab.lbasis
+    · have : (isFrac s.lab.lbasis && decide (basis' = s.lab.lbasis)) = true := by simp [h2.1, h2.2]
+      rw [if_pos this, hsame (Or.inr h2)]
+      refine ⟨fun f hf => ?_, fun e he => by cases he⟩
+      cases hf; exact ⟨rfl, (map_mul_one' _).symm⟩
+    · have : ¬ (isFrac s.lab.lbasis && decide (basis' = s.lab.lbasis)) = true := by simpa using h2
+      rw [if_neg this, ← hdiff h h2]
+      refine ⟨fun f hf => ?_, fun e he => ?_⟩
+      · rw [hf]; exact ⟨rfl, rfl⟩
+      · rw [he]
+
+lemma mCore_spec (c : Ctx α) (s : Iso α) (hF : isFrac s.lab.lbasis = false) (basis' : String) (unit' : Option String)
+    (r : Except Err α)
+    (hsame : basis' = s.lab.mbasis → unit' = s.lab.munit → r = .ok 1)
+    (hdiff : ¬ (basis' = s.lab.mbasis ∧ unit' = s.lab.munit) →
+      r = cMaterial c.env (1 : α) (some s.lab.mbasis) (some basis') s.lab.munit unit') :
+    (∀ f, r = .ok f → ∃ s2, mCore c s basis' unit' = (s2, .ok) ∧ s2.ls = s.ls.map (· * f) ∧
+        s2.lab = { s.lab with mbasis := basis', munit := unit' }) ∧
+    (∀ e, r = .error e → mCore c s basis' unit' = (s, .err e)) := by
+  unfold mCore
+  by_cases h : basis' = s.lab.mbasis ∧ unit' = s.lab.munit
+  · rw [if_pos h, hsame h.1 h.2]
+    refine ⟨fun f hf => ?_, fun e he => by cases he⟩
+    cases hf
+    obtain ⟨h1, h2⟩ := h
+    subst h1; subst h2
+    exact ⟨s, rfl, (map_mul_one' _).symm, rfl⟩
+  · rw [if_neg h, ← hdiff h]
+    simp only [hF, Bool.false_and, Bool.false_eq_true, if_false]
+    refine ⟨fun f hf => ?_, fun e he => ?_⟩
+    · rw [hf]
+      simp only [mul_one]
+      exact ⟨_, rfl, rfl, rfl⟩
+    · rw [he]
+
+lemma checkBasis_of_lookup {modes : List (String × Option String)} {b : String}
+    (h : (modes.lookup b).isSome = true) (hb : b ≠ "") : ∃ t, checkBasis modes (some b) = .ok (b, t) := by
+  obtain ⟨t, ht⟩ := Option.isSome_iff_exists.mp h
+  exact ⟨t, by simp [checkBasis, hb, ht]⟩
+
+lemma mbasis_ne_empty {b : String} (h : (materialMode.lookup b).isSome = true) : b ≠ "" := by
+  rintro rfl; revert h; decide
+
+lemma lbasis_ne_empty {b : String} (h : (loadingMode.lookup b).isSome = true) : b ≠ "" := by
+  rintro rfl; revert h; decide
+
+/-- same material basis, and no unit or the same unit requested: identity -/
+lemma cMaterial_same (env : Env α) (v : α) (b : String) (uf ut : Option String)
+    (hb : (materialMode.lookup b).isSome = true) (hu : truthy ut = false ∨ uf = ut) :
+    cMaterial env v (some b) (some b) uf ut = .ok v := by
+  obtain ⟨t, ht⟩ := checkBasis_of_lookup hb (mbasis_ne_empty hb)
+  unfold cMaterial
+  rcases hu with hu | hu <;> simp [ht, hu, bind, Except.bind, pure, Except.pure]
+
+/-- same loading basis, and no unit or the same unit requested: identity -/
+lemma cLoading_same (env : Env α) (v : α) (b : String) (uf ut bm um : Option String)
+    (hb : (loadingMode.lookup b).isSome = true) (hu : truthy ut = false ∨ uf = ut) :
+    cLoading env v (some b) (some b) uf ut bm um = .ok v := by
+  obtain ⟨t, ht⟩ := checkBasis_of_lookup hb (lbasis_ne_empty hb)
+  unfold cLoading
+  rcases hu with hu | hu <;> simp [ht, hu, bind, Except.bind, pure, Except.pure]
+
+/-- a change of material basis without a unit is refused -/
+lemma cMaterial_diff_needs_unit (env : Env α) (v : α) (a b : String) (uf ut : Option String) (hab : a ≠ b)
+    (hu : truthy ut = false) (f : α) : cMaterial env v (some a) (some b) uf ut ≠ .ok f := by
+  unfold cMaterial
+  cases ha : checkBasis materialMode (some a) with
+  | error e => simp [bind, Except.bind]
+  | ok x =>
+  cases hb : checkBasis materialMode (some b) with
+  | error e => simp [bind, Except.bind]
+  | ok y =>
+  have hx := checkBasis_ok_fst ha
+  have hy := checkBasis_ok_fst hb
+  obtain ⟨x1, x2⟩ := x
+  obtain ⟨y1, y2⟩ := y
+  simp only at hx hy
+  subst hx; subst hy
+  simp [bind, Except.bind, hab, checkUnit_falsy _ _ hu]
+
+/-- the factor of the material step: `c_material(1, stored → requested)` with the unit as given -/
+def mFactor (c : Ctx α) (lab : Labels) (mb mu : Option String) : Except Err α :=
+  cMaterial c.env (1 : α) (some lab.mbasis) (some (orCurrent mb lab.mbasis)) lab.munit mu
+
+/-- labels after a successful `convert_material` on a physical loading -/
+def labAfterM (lab : Labels) (mb mu : Option String) : Labels :=
+  { lab with mbasis := orCurrent mb lab.mbasis,
+             munit := unitArg mu (decide (orCurrent mb lab.mbasis = lab.mbasis)) lab.munit }
+
+/-- the factor of the loading step: `c_loading(1, stored → requested)` with the material of `lab` -/
+def lFactor (c : Ctx α) (lab : Labels) (lb lu : Option String) : Except Err α :=
+  cLoading c.env (1 : α) (some lab.lbasis) (some (orCurrent lb lab.lbasis)) lab.lunit lu (some lab.mbasis) lab.munit
+
+lemma unitArg_eq_of_not_same {u cur : Option String} {same : Prop} [Decidable same]
+    (h : ¬ (same ∧ unitArg u (decide same) cur = cur)) : unitArg u (decide same) cur = u := by
+  by_cases ht : truthy u = true
+  · exact unitArg_truthy ht _ _
+  · have ht' : truthy u = false := by simpa using ht
+    by_cases hs : same
+    · exfalso; apply h; refine ⟨hs, ?_⟩
+      simp only [hs, decide_true]; exact unitArg_falsy_same ht' _
+    · simp only [hs, decide_false]; exact unitArg_diff _ _
+
+lemma unitArg_same_cases {u cur : Option String} {same : Bool} (h : unitArg u same cur = cur) :
+    truthy u = false ∨ cur = u := by
+  by_cases ht : truthy u = true
+  · right; rw [unitArg_truthy ht] at h; exact h.symm
+  · left; simpa using ht
+
+lemma convertMaterial_eq_factor (c : Ctx α) (s : Iso α) (mb mu : Option String)
+    (hF : isFrac s.lab.lbasis = false) (hM : (materialMode.lookup s.lab.mbasis).isSome = true) :
+    (∀ f, mFactor c s.lab mb mu = .ok f → ∃ s2, convertMaterial c s mb mu = (s2, .ok) ∧ s2.ls = s.ls.map (· * f) ∧
+        s2.lab = labAfterM s.lab mb mu) ∧
+    (∀ e, mFactor c s.lab mb mu = .error e → convertMaterial c s mb mu = (s, .err e)) := by
+  rw [convertMaterial_core]
+  apply mCore_spec c s hF
+  · intro hb hu
+    unfold mFactor
+    rw [hb]
+    exact cMaterial_same _ _ _ _ _ hM (unitArg_same_cases hu)
+  · intro hne
+    unfold mFactor
+    rw [unitArg_eq_of_not_same hne]
+
+lemma convertLoading_eq_factor (c : Ctx α) (s : Iso α) (lb lu : Option String)
+    (hL : (loadingMode.lookup s.lab.lbasis).isSome = true)
+    (hfr : isFrac s.lab.lbasis = true → orCurrent lb s.lab.lbasis = s.lab.lbasis →
+      truthy lu = false ∨ s.lab.lunit = lu) :
+    (∀ f, lFactor c s.lab lb lu = .ok f →
+      (convertLoading c s lb lu).2 = .ok ∧ (convertLoading c s lb lu).1.ls = s.ls.map (· * f)) ∧
+    (∀ e, lFactor c s.lab lb lu = .error e → convertLoading c s lb lu = (s, .err e)) := by
+  rw [convertLoading_core]
+  apply lCore_spec
+  · rintro (⟨hb, hu⟩ | ⟨hfrac, hb⟩)
+    · unfold lFactor
+      rw [hb]
+      exact cLoading_same _ _ _ _ _ _ _ hL (unitArg_same_cases hu)
+    · unfold lFactor
+      rw [hb]
+      exact cLoading_same _ _ _ _ _ _ _ hL (hfr hfrac hb)
+  · intro hne _
+    unfold lFactor
+    rw [unitArg_eq_of_not_same hne]
+
+lemma orCurrent_falsy {a : Option String} (h : truthy a = false) (cur : String) : orCurrent a cur = cur := by
+  cases a with
+  | none => rfl
+  | some x => simp [truthy] at h; simp [orCurrent, h]
+
+lemma labAfterM_falsy (lab : Labels) {mb mu : Option String} (h1 : truthy mb = false) (h2 : truthy mu = false) :
+    labAfterM lab mb mu = lab := by
+  unfold labAfterM
+  rw [orCurrent_falsy h1]
+  simp only [decide_true, unitArg_falsy_same h2]
+
+/-- the single factor of `loading(...)` / the output side of `ModelIsotherm.loading_at`:
+material factor, then loading factor evaluated with the labels the material step leaves behind -/
+def tFactor (c : Ctx α) (lab : Labels) (lb lu mb mu : Option String) : Except Err α :=
+  (if truthy mb || truthy mu then mFactor c lab mb mu else .ok 1) >>= fun f1 =>
+    (if truthy lb || truthy lu then lFactor c (labAfterM lab mb mu) lb lu else .ok 1) >>= fun f2 => .ok (f1 * f2)
+
+lemma loadStep (c : Ctx α) (lab lab2 : Labels) (v1 : α) (lb lu bm um : Option String)
+    (h1 : bm = some lab2.mbasis) (h2 : um = lab2.munit) (h3 : lab2.lbasis = lab.lbasis) (h4 : lab2.lunit = lab.lunit) :
+    cLoading c.env v1 (some lab.lbasis) (orDefault lb (some lab.lbasis)) lab.lunit lu bm um =
+      (lFactor c lab2 lb lu).map (fun f => v1 * f) := by
+  subst h1; subst h2
+  unfold lFactor
+  rw [h3, h4, orDefault_mode, cLoading_linear]
+
+/-- the accessor multiplies by `tFactor` -/
+lemma accessLoadingTarget_eq_factor (c : Ctx α) (lab : Labels) (v : α) (lb lu mb mu : Option String) :
+    accessLoadingTarget c lab v lb lu mb mu = (tFactor c lab lb lu mb mu).map (fun f => v * f) := by
+  unfold accessLoadingTarget tFactor
+  by_cases hm : (truthy mb || truthy mu) = true
+  · simp only [hm, if_true]
+    rw [orDefault_mode, cMaterial_linear]
+    cases hf1 : cMaterial c.env (1 : α) (some lab.mbasis) (some (orCurrent mb lab.mbasis)) lab.munit mu with
+    | error e => simp [mFactor, hf1, bind, Except.bind, Except.map]
+    | ok f1 =>
+      have hum : orDefault mu lab.munit = (labAfterM lab mb mu).munit := by
+        show _ = unitArg mu _ lab.munit
+        by_cases ht : truthy mu = true
+        · rw [orDefault_of_truthy ht, unitArg_truthy ht]
+        · have ht' : truthy mu = false := by simpa using ht
+          rw [orDefault_of_falsy ht']
+          by_cases hb : orCurrent mb lab.mbasis = lab.mbasis
+          · simp only [hb, decide_true, unitArg_falsy_same ht']
+          · exact absurd hf1 (cMaterial_diff_needs_unit _ _ _ _ _ _ (fun h => hb h.symm) ht' f1)
+      by_cases hl : (truthy lb || truthy lu) = true
+      · simp only [hl, if_true, mFactor, hf1, bind, Except.bind, Except.map]
+        refine Eq.trans (loadStep c lab (labAfterM lab mb mu) (v * f1) lb lu _ _ rfl hum rfl rfl) ?_
+        cases lFactor c (labAfterM lab mb mu) lb lu <;> simp [Except.map, pure, Except.pure, mul_assoc]
+      · simp [hl, mFactor, hf1, bind, Except.bind, Except.map, pure, Except.pure]
+  · have hm' : truthy mb = false ∧ truthy mu = false := by simpa using hm
+    simp only [hm, if_false]
+    rw [labAfterM_falsy lab hm'.1 hm'.2]
+    by_cases hl : (truthy lb || truthy lu) = true
+    · simp only [hl, if_true, bind, Except.bind, pure, Except.pure]
+      rw [loadStep c lab lab v lb lu _ _ (by rw [orDefault_mode, orCurrent_falsy hm'.1]) (orDefault_of_falsy hm'.2) rfl rfl]
+      cases lFactor c lab lb lu <;> simp [Except.map]
+    · simp [hl, bind, Except.bind, Except.map, pure, Except.pure]
+
+lemma convertAll_none (c : Ctx α) (s : Iso α) (lb lu mb mu : Option String) :
+    convertAll c s none none lb lu mb mu =
+      match (if truthy mb || truthy mu then convertMaterial c s mb mu else (s, .ok)) with
+      | (s2, .err e) => (s2, .err e)
+      | (s2, .ok) => if truthy lb || truthy lu then convertLoading c s2 lb lu else (s2, .ok) := rfl
+
+/-- the loading step of `convert` after a material step that multiplied the loadings by `f1` -/
+lemma tail_char (c : Ctx α) (s s2 : Iso α) (f1 : α) (lab2 : Labels) (lb lu : Option String)
+    (hls : s2.ls = s.ls.map (· * f1)) (hlab : s2.lab = lab2)
+    (hL2 : (loadingMode.lookup lab2.lbasis).isSome = true)
+    (hfr2 : isFrac lab2.lbasis = true → orCurrent lb lab2.lbasis = lab2.lbasis → truthy lu = false ∨ lab2.lunit = lu) :
+    (∀ f, ((if truthy lb || truthy lu then lFactor c lab2 lb lu else .ok 1) >>= fun f2 => .ok (f1 * f2)) = .ok f →
+      (if truthy lb || truthy lu then convertLoading c s2 lb lu else (s2, .ok)).2 = .ok ∧
+      (if truthy lb || truthy lu then convertLoading c s2 lb lu else (s2, .ok)).1.ls = s.ls.map (· * f)) ∧
+    (∀ e, ((if truthy lb || truthy lu then lFactor c lab2 lb lu else .ok 1) >>= fun f2 => .ok (f1 * f2)) = .error e →
+      (if truthy lb || truthy lu then convertLoading c s2 lb lu else (s2, .ok)).2 = .err e) := by
+  subst hlab
+  by_cases hl : (truthy lb || truthy lu) = true
+  · simp only [hl, if_true]
+    obtain ⟨hok, herr⟩ := convertLoading_eq_factor c s2 lb lu hL2 hfr2
+    cases hf2 : lFactor c s2.lab lb lu with
+    | error e2 =>
+      refine ⟨fun f hf => (by cases hf), fun e he => ?_⟩
+      cases he
+      rw [herr e2 hf2]
+    | ok f2 =>
+      obtain ⟨h2, h3⟩ := hok f2 hf2
+      refine ⟨fun f hf => ?_, fun e he => by cases he⟩
+      cases hf
+      refine ⟨h2, ?_⟩
+      rw [h3, hls, List.map_map]
+      apply List.map_congr_left
+      intro x _
+      simp [mul_assoc]
+  · simp only [hl, Bool.false_eq_true, if_false]
+    refine ⟨fun f hf => ?_, fun e he => by cases he⟩
+    cases hf
+    refine ⟨trivial, ?_⟩
+    rw [hls, mul_one]
+
+/-- complete description of `convert(loading…, material…)` by the factor `tFactor`, whenever a material change is
+requested only for a physical stored loading, and a stored fraction/percent is not asked for a (meaningless) unit -/
+lemma convertAll_char (c : Ctx α) (s : Iso α) (lb lu mb mu : Option String)
+    (hL : (loadingMode.lookup s.lab.lbasis).isSome = true) (hM : (materialMode.lookup s.lab.mbasis).isSome = true)
+    (hMF : (truthy mb || truthy mu) = true → isFrac s.lab.lbasis = false)
+    (hfr : isFrac s.lab.lbasis = true → orCurrent lb s.lab.lbasis = s.lab.lbasis → truthy lu = false ∨ s.lab.lunit = lu) :
+    (∀ f, tFactor c s.lab lb lu mb mu = .ok f →
+      (convertAll c s none none lb lu mb mu).2 = .ok ∧ (convertAll c s none none lb lu mb mu).1.ls = s.ls.map (· * f)) ∧
+    (∀ e, tFactor c s.lab lb lu mb mu = .error e → (convertAll c s none none lb lu mb mu).2 = .err e) := by
+  rw [convertAll_none]
+  unfold tFactor
+  by_cases hm : (truthy mb || truthy mu) = true
+  · have hF := hMF hm
+    obtain ⟨hMok, hMerr⟩ := convertMaterial_eq_factor c s mb mu hF hM
+    simp only [hm, if_true]
+    cases hf1 : mFactor c s.lab mb mu with
+    | error e1 =>
+      rw [hMerr e1 hf1]
+      refine ⟨fun f hf => (by cases hf), fun e he => ?_⟩
+      cases he; rfl
+    | ok f1 =>
+      obtain ⟨s2, hc, hls, hlab⟩ := hMok f1 hf1
+      rw [hc]
+      have hF2 : isFrac (labAfterM s.lab mb mu).lbasis = false := hF
+      exact tail_char c s s2 f1 (labAfterM s.lab mb mu) lb lu hls hlab hL (fun h => by rw [hF2] at h; cases h)
+  · have hm' : truthy mb = false ∧ truthy mu = false := by simpa using hm
+    simp only [hm, Bool.false_eq_true, if_false]
+    rw [labAfterM_falsy s.lab hm'.1 hm'.2]
+    have := tail_char c s s 1 s.lab lb lu (map_mul_one' _).symm rfl hL hfr
+    exact this
+
+/-- generic passage from the factor description to the three clauses -/
+lemma clauses_of_char {σ : Type} (acc : α → Except Err α) (conv : σ × Outcome) (col : σ → List α) (base : List α)
+    (r : Except Err α) (h1 : ∀ v, acc v = r.map (fun f => v * f))
+    (h2 : ∀ f, r = .ok f → conv.2 = .ok ∧ col conv.1 = base.map (· * f))
+    (h3 : ∀ e, r = .error e → conv.2 = .err e) :
+    (∀ s', conv = (s', .ok) → ∃ f, col s' = base.map (· * f) ∧ ∀ v, acc v = .ok (v * f)) ∧
+    (∀ v e, acc v = .error e → conv.2 = .err e) ∧
+    (∀ s' e, conv = (s', .err e) → ∀ v, acc v = .error e) := by
+  cases hr : r with
+  | ok f =>
+    obtain ⟨h2a, h2b⟩ := h2 f hr
+    refine ⟨fun s' hs' => ⟨f, ?_, fun v => ?_⟩, fun v e he => ?_, fun s' e hs' => ?_⟩
+    · rw [hs'] at h2b; exact h2b
+    · rw [h1, hr]; rfl
+    · rw [h1, hr] at he; cases he
+    · rw [hs'] at h2a; cases h2a
+  | error e0 =>
+    have h3' := h3 e0 hr
+    refine ⟨fun s' hs' => ?_, fun v e he => ?_, fun s' e hs' => ?_⟩
+    · rw [hs'] at h3'; cases h3'
+    · rw [h1, hr] at he; cases he; exact h3'
+    · rw [hs'] at h3'; cases h3'
+      intro v; rw [h1, hr]; rfl
+
+/-- **accessor = read ∘ permanent conversion (loading, physical stored basis)**, for ALL argument strings:
+`loading(loading_basis, loading_unit, material_basis, material_unit)` (and the output side of
+`ModelIsotherm.loading_at`) against `convert(loading_basis=…, loading_unit=…, material_basis=…, material_unit=…)`
+(material step, then loading step) on a state whose stored loading basis is physical:
+* if the permanent conversion succeeds it multiplied the loading column by one factor `f`, and the accessor returns
+  `v * f` for every stored value `v`;
+* if the accessor is refused, the permanent conversion is refused with the SAME error class;
+* conversely a refused permanent conversion means the accessor is refused with the same class.
+No condition on the argument shape is needed (omitted units, explicitly repeated current basis, … all agree);
+the label hypotheses are the constructor's validation. -/
+theorem accessLoadingTarget_eq_convert (c : Ctx α) (s : Iso α) (lb lu mb mu : Option String)
+    (hF : isFrac s.lab.lbasis = false)
+    (hL : (loadingMode.lookup s.lab.lbasis).isSome = true) (hM : (materialMode.lookup s.lab.mbasis).isSome = true) :
+    (∀ s', convertAll c s none none lb lu mb mu = (s', .ok) →
+      ∃ f, s'.ls = s.ls.map (· * f) ∧ ∀ v, accessLoadingTarget c s.lab v lb lu mb mu = .ok (v * f)) ∧
+    (∀ v e, accessLoadingTarget c s.lab v lb lu mb mu = .error e →
+      (convertAll c s none none lb lu mb mu).2 = .err e) ∧
+    (∀ s' e, convertAll c s none none lb lu mb mu = (s', .err e) →
+      ∀ v, accessLoadingTarget c s.lab v lb lu mb mu = .error e) := by
+  obtain ⟨h2, h3⟩ := convertAll_char c s lb lu mb mu hL hM (fun _ => hF) (fun h => by rw [hF] at h; cases h)
+  exact clauses_of_char (fun v => accessLoadingTarget c s.lab v lb lu mb mu) _ (fun s' => s'.ls) s.ls _
+    (fun v => accessLoadingTarget_eq_factor c s.lab v lb lu mb mu) h2 h3
+
+/-- **stored fraction / percent** (partial): the same three clauses hold when the material representation is not
+changed (`material_basis`, `material_unit` omitted) and the request does not attach a loading unit to an unchanged
+fraction/percent basis.  What is missing, and why:
+* a material change on a stored fraction — the clause is FALSE there, see `S5_witness` (finding S5a);
+* `loading_unit` given while the basis stays fraction/percent — the permanent conversion silently ignores the unit
+  ("no loading units in this mode") but the accessor raises `TypeError`, see `fraction_unit_witness`. -/
+theorem accessLoadingTarget_fraction_partial (c : Ctx α) (s : Iso α) (lb lu mb mu : Option String)
+    (hmb : truthy mb = false) (hmu : truthy mu = false)
+    (hL : (loadingMode.lookup s.lab.lbasis).isSome = true) (hM : (materialMode.lookup s.lab.mbasis).isSome = true)
+    (hfr : isFrac s.lab.lbasis = true → orCurrent lb s.lab.lbasis = s.lab.lbasis → truthy lu = false ∨ s.lab.lunit = lu) :
+    (∀ s', convertAll c s none none lb lu mb mu = (s', .ok) →
+      ∃ f, s'.ls = s.ls.map (· * f) ∧ ∀ v, accessLoadingTarget c s.lab v lb lu mb mu = .ok (v * f)) ∧
+    (∀ v e, accessLoadingTarget c s.lab v lb lu mb mu = .error e →
+      (convertAll c s none none lb lu mb mu).2 = .err e) ∧
+    (∀ s' e, convertAll c s none none lb lu mb mu = (s', .err e) →
+      ∀ v, accessLoadingTarget c s.lab v lb lu mb mu = .error e) := by
+  obtain ⟨h2, h3⟩ := convertAll_char c s lb lu mb mu hL hM (fun h => by simp [hmb, hmu] at h) hfr
+  exact clauses_of_char (fun v => accessLoadingTarget c s.lab v lb lu mb mu) _ (fun s' => s'.ls) s.ls _
+    (fun v => accessLoadingTarget_eq_factor c s.lab v lb lu mb mu) h2 h3
+
+/-! ### quantities supplied by the caller in foreign units -/
+
+open PgVerif.Spec (PRep) in
+/-- the pressure accessor in SI terms: stored representation `a`, requested representation `b`
+(`pm` may be omitted when the mode does not change; `pu` is the unit label of `b`) -/
+theorem accessPressure_SI (c : Ctx α) (lab : Labels) (ps : α) (hps : ps ≠ 0) (hpsat : c.psat = some ps)
+    (ht : c.tempOk = true) (a b : PRep) (sa sb : α)
+    (ha : a.scale Spec.pressureUnits ps = some sa) (hb : b.scale Spec.pressureUnits ps = some sb)
+    (hmode : lab.pmode = a.mode) (hunit : lab.punit = a.unit)
+    (pm pu : Option String) (harg : truthy pm = true ∨ truthy pu = true)
+    (hpm : orCurrent pm lab.pmode = b.mode) (hpu : pu = b.unit) (v : α) :
+    accessPressure c lab v pm pu = .ok (v * sa / sb) := by
+  have hcond : (truthy pm || truthy pu) = true := by simpa using harg
+  unfold accessPressure
+  rw [if_pos hcond, orDefault_mode, hpm, hmode, hunit, hpsat, ht]
+  cases b with
+  | abs u =>
+    have hu : truthy pu = true := by
+      have : u ≠ "" := by
+        intro h0; simp [Spec.PRep.scale, h0] at hb
+      simp [hpu, Spec.PRep.unit, truthy, this]
+    rw [orDefault_of_truthy hu, hpu]
+    rw [show cPressure (some ps) true v (some a.mode) (some (PRep.abs u).mode) a.unit (PRep.abs u).unit = _ from
+      C01.cPressure_SI ps v hps a (.abs u) sa sb ha hb]
+  | rel ul =>
+    rw [show cPressure (some ps) true v (some a.mode) (some (PRep.rel ul).mode) a.unit (orDefault pu a.unit) = _ from
+      C01.cPressure_SI ps v hps a (.rel (orDefault pu a.unit)) sa sb ha hb]
+  | relp ul =>
+    rw [show cPressure (some ps) true v (some a.mode) (some (PRep.relp ul).mode) a.unit (orDefault pu a.unit) = _ from
+      C01.cPressure_SI ps v hps a (.relp (orDefault pu a.unit)) sa sb ha hb]
+
+open PgVerif.Spec (PRep) in
+/-- a pressure SUPPLIED in representation `b` is read with the inverse factor -/
+theorem inputPressure_SI (c : Ctx α) (lab : Labels) (ps : α) (hps : ps ≠ 0) (hpsat : c.psat = some ps)
+    (ht : c.tempOk = true) (a b : PRep) (sa sb : α)
+    (ha : a.scale Spec.pressureUnits ps = some sa) (hb : b.scale Spec.pressureUnits ps = some sb)
+    (hmode : lab.pmode = a.mode) (hunit : lab.punit = a.unit)
+    (pm pu : Option String) (harg : truthy pm = true ∨ truthy pu = true)
+    (hpm : orCurrent pm lab.pmode = b.mode) (hpu : pu = b.unit) (w : α) :
+    inputPressure c lab w pm pu = .ok (w * sb / sa) := by
+  have hcond : (truthy pm || truthy pu) = true := by simpa using harg
+  unfold inputPressure
+  simp only []
+  rw [if_pos hcond, orDefault_mode, hpm, hmode, hunit, hpsat, ht, hpu]
+  have hguard : (decide (some b.mode = some "absolute") && !truthy b.unit) = false := by
+    cases b with
+    | abs u =>
+      have : u ≠ "" := by
+        intro h0; simp [Spec.PRep.scale, h0] at hb
+      simp [Spec.PRep.unit, truthy, this]
+    | rel ul => simp [Spec.PRep.mode]
+    | relp ul => simp [Spec.PRep.mode]
+  rw [hguard]
+  simp only [Bool.false_eq_true, if_false]
+  exact C01.cPressure_SI ps w hps b a sb sa hb ha
+
+open PgVerif.Spec (PRep) in
+/-- **a pressure supplied in foreign units is interpreted by the inverse conversion**: whatever the pressure
+accessor shows for the stored value `v` in the requested representation, feeding that number back as an input in
+the same representation recovers `v`.  (Typed valid target; `p_sat ≠ 0`, temperature known.  For an absolute target
+the unit must be given: `loading_at(..., pressure_mode='absolute')` without a unit is refused by design, while the
+accessor would default to the stored unit — that argument shape is outside `hpu`.) -/
+theorem inputPressure_inverse (c : Ctx α) (lab : Labels) (ps : α) (hps : ps ≠ 0) (hpsat : c.psat = some ps)
+    (ht : c.tempOk = true) (a b : PRep) (sa sb : α)
+    (ha : a.scale Spec.pressureUnits ps = some sa) (hb : b.scale Spec.pressureUnits ps = some sb)
+    (hmode : lab.pmode = a.mode) (hunit : lab.punit = a.unit)
+    (pm pu : Option String) (harg : truthy pm = true ∨ truthy pu = true)
+    (hpm : orCurrent pm lab.pmode = b.mode) (hpu : pu = b.unit) (v w : α)
+    (h : accessPressure c lab v pm pu = .ok w) : inputPressure c lab w pm pu = .ok v := by
+  rw [accessPressure_SI c lab ps hps hpsat ht a b sa sb ha hb hmode hunit pm pu harg hpm hpu v] at h
+  rw [inputPressure_SI c lab ps hps hpsat ht a b sa sb ha hb hmode hunit pm pu harg hpm hpu w]
+  have h1 := C01.PRep.scale_ne_zero ps hps a sa ha
+  have h2 := C01.PRep.scale_ne_zero ps hps b sb hb
+  cases h
+  congr 1
+  field_simp
+
+end Access
+
+/-! ### Known findings kept visible (witnesses over ℚ, N2-like adsorbate) and non-vacuity -/
+
+section Witness
+open PgVerif.Units PgVerif.Spec
+
+/-- N2-like constants: M = 28 g/mol, ρ_liq = 0.8 g/cm3, ρ_gas = 0.007 g/cm3 (consistent molar densities) -/
+def n2 : Ads ℚ := ⟨28, 4 / 5, 1 / 35, 7 / 1000, 1 / 4000⟩
+def mat2 : Mat ℚ := ⟨2, 60⟩
+def ctxW : Ctx ℚ := ⟨some 101325, envOf n2 mat2, true⟩
+/-- stored: fraction per mass/g -/
+def labFrac : Labels := ⟨"absolute", some "bar", "fraction", none, "mass", some "g", some "K"⟩
+/-- stored: molar/mmol per mass/g -/
+def labMolar : Labels := ⟨"absolute", some "bar", "molar", some "mmol", "mass", some "g", some "K"⟩
+def isoFrac : Iso ℚ := ⟨labFrac, [1], [1 / 10], 77, false, false⟩
+def isoMolar : Iso ℚ := ⟨labMolar, [1], [2], 77, false, false⟩
+
+/-- **finding S5a**: stored fraction per g, requested mmol per cm3 of material.  The permanent conversion gives
+50/7, `loading(...)` gives 40/7 (it converts the material amount but not the adsorbate amount of the fraction). -/
+theorem S5_witness :
+    (convertAll ctxW isoFrac none none (some "molar") (some "mmol") (some "volume") (some "cm3")).2 = .ok ∧
+    (convertAll ctxW isoFrac none none (some "molar") (some "mmol") (some "volume") (some "cm3")).1.ls = [50 / 7] ∧
+    accessLoadingTarget ctxW labFrac (1 / 10) (some "molar") (some "mmol") (some "volume") (some "cm3") = .ok (40 / 7) := by
+  decide +kernel
+
+/-- **finding S5b**: stored mmol per g, `loading_at(..., loading_basis='fraction', material_basis='volume',
+material_unit='cm3')` (output side, `accessLoadingStored`) gives 14/125, the permanent conversion 7/50:
+the fraction is formed with the STORED material representation. -/
+theorem S5b_witness :
+    (convertAll ctxW isoMolar none none (some "fraction") none (some "volume") (some "cm3")).2 = .ok ∧
+    (convertAll ctxW isoMolar none none (some "fraction") none (some "volume") (some "cm3")).1.ls = [7 / 50] ∧
+    accessLoadingStored ctxW labMolar 2 (some "fraction") none (some "volume") (some "cm3") = .ok (14 / 125) := by
+  decide +kernel
+
+/-- a loading unit attached to an unchanged fraction basis: `convert` accepts and ignores it, `loading(...)` raises
+`TypeError` — the argument shape excluded by `hfr` in `accessLoadingTarget_fraction_partial` -/
+theorem fraction_unit_witness :
+    (convertAll ctxW isoFrac none none none (some "mmol") none none).2 = .ok ∧
+    accessLoadingTarget ctxW labFrac (1 / 10) none (some "mmol") none none = .error .type := by
+  decide +kernel
+
+/-- `PLabelsOk.unit_rel` cannot be dropped from `accessPressure_eq_convert`: a (non-constructible) relative state that
+still carries a unit label is converted to absolute by the accessor (which defaults to the stored label) but refused
+by `convert_pressure` (which takes the omitted unit literally) -/
+theorem pressure_unit_invariant_witness :
+    let lab : Labels := ⟨"relative", some "bar", "molar", some "mmol", "mass", some "g", some "K"⟩
+    (convertPressure ctxW ⟨lab, [1 / 2], [2], 77, false, false⟩ (some "absolute") none).2 = .err .calc ∧
+    accessPressure ctxW lab (1 / 2) (some "absolute") none = .ok (4053 / 8000) := by
+  decide +kernel
+
+/-! non-vacuity of B: accepted conversions with concrete numbers -/
+example : PLabelsOk labMolar := ⟨by decide, fun _ => ⟨"bar", rfl, by decide⟩, fun h => absurd rfl h⟩
+example : (convertPressure ctxW isoMolar (some "relative") none).2 = .ok ∧
+    (convertPressure ctxW isoMolar (some "relative") none).1.ps = [4000 / 4053] ∧
+    accessPressure ctxW labMolar 1 (some "relative") none = .ok (4000 / 4053) ∧
+    inputPressure ctxW labMolar (4000 / 4053) (some "relative") none = .ok 1 := by decide +kernel
+example : (convertAll ctxW isoMolar none none (some "fraction") none (some "volume") (some "cm3")).1.ls = [7 / 50] ∧
+    accessLoadingTarget ctxW labMolar 2 (some "fraction") none (some "volume") (some "cm3") = .ok (7 / 50) := by
+  decide +kernel
+example : isFrac labMolar.lbasis = false ∧ (loadingMode.lookup labMolar.lbasis).isSome = true ∧
+    (materialMode.lookup labMolar.mbasis).isSome = true := by decide
+
+end Witness
 
 end PgVerif.C03
